@@ -13,7 +13,7 @@ RULE = ('worlds = k<=3 layers (independent | chain | with unit layer) with '
         '(every bad outcome kind) or is a layer whose setUp raises (every '
         'layer); tests after it alternate pass/fail; run with -x combined with '
         '{nothing, --repeat 2, --shuffle (2 seeds), -j2, resumed children (a '
-        'first layer that cannot be torn down)}; oracle on the trace of every '
+        'first layer that cannot be torn down), the bad test\'s own layer not tear-downable, the resumed child that ran the bad test dying before / while it reports}; oracle on the trace of every '
         'process; non-trivial = the bad item is not the very last item of the '
         'run')
 ASSUMPTIONS = [
@@ -21,7 +21,7 @@ ASSUMPTIONS = [
     '"sequential run" = no -j option; layers resumed in subprocesses after a tearDown raised NotImplementedError still belong to a sequential run',
 ]
 BOUND = {
-    'quick': 'k<=3 layers x T<=2 tests per layer x 3 shapes x every position x 11 bad kinds (+ layer setUp failure at every layer) x 7 option vectors',
+    'quick': 'k<=3 layers x T<=2 tests per layer x 3 shapes x every position x 14 bad kinds (+ layer setUp failure at every layer) x 11 option vectors',
     'thorough': 'same with T<=3 and additionally two shuffle seeds x --repeat 2 and -j3',
 }
 CHUNK = 128
@@ -47,6 +47,14 @@ OPTS = {
     'x+j3': ['-x', '-j3'],
     'x+shuf1+rep': ['-x', '--shuffle', '--shuffle-seed', '1', '--repeat', '2'],
     'x+buf': ['-x', '--buffer'],
+    # the layer that holds the first bad test cannot be torn down (its bases
+    # still must be)
+    'x+nietop': ['-x'],
+    'x+nietop+rep': ['-x', '--repeat', '2'],
+    # resumed children; the child that ran the first bad test dies before it
+    # has reported anything / sends half a report
+    'x+nie+cfempty': ['-x'],
+    'x+nie+cfcut': ['-x', '-v'],
 }
 
 
@@ -96,7 +104,8 @@ def cases(tier, seed):
     for v in (0, 2):
         yield ['xj', v, None, None, None]
     T = 2 if tier == 'quick' else 3
-    optkeys = ['x', 'x+rep', 'x+shuf1', 'x+shuf2', 'x+j2', 'x+nie', 'x+nie+rep']
+    optkeys = ['x', 'x+rep', 'x+shuf1', 'x+shuf2', 'x+j2', 'x+nie', 'x+nie+rep',
+               'x+nietop', 'x+nietop+rep', 'x+nie+cfempty', 'x+nie+cfcut']
     if tier == 'thorough':
         optkeys += ['x+v', 'x+j3', 'x+shuf1+rep', 'x+buf']
     bad = worlds.rot(BAD, seed)
@@ -109,12 +118,25 @@ def cases(tier, seed):
                 for pos in range(total):
                     for kind in bad:
                         for ok in optkeys:
+                            if ('nietop' in ok or '+cf' in ok) and _layer_of(shape, counts, pos) is None:
+                                continue      # the bad test is a unit test: no layer / no child involved
                             yield [k, shape, list(counts), ['t', pos, kind], ok]
                 for li in range(k):
                     if shape == 'unit' and li == 0:
                         continue
                     for ok in optkeys:
+                        if 'nietop' in ok or '+cf' in ok:
+                            continue
                         yield [k, shape, list(counts), ['L', li, 'ValueError'], ok]
+
+
+def _layer_of(shape, counts, pos):
+    """index of the layer that holds test number pos (None: the unit layer)"""
+    i = 0
+    for li, c in enumerate(counts):
+        if pos < i + c:
+            return None if (shape == 'unit' and li == 0) else li
+        i += c
 
 
 def build_spec(case):
@@ -140,6 +162,8 @@ def build_spec(case):
             L = {'n': nm, 'b': bases, 'k': 'c', 'h': list(worlds.HOOKS_SD)}
             if bad[0] == 'L' and bad[1] == i:
                 L['f'] = {'setUp': bad[2]}
+            if 'nietop' in ok.split('+') and bad[0] == 't' and _layer_of(shape, counts, bad[1]) == i:
+                L['f'] = {'tearDown': 'NIE'}
             layers.append(L)
             lay = nm
         for j in range(counts[i]):
@@ -173,7 +197,18 @@ def run_case(case):
         return {'evals': 1, 'nontrivial': 1, 'violations': run_xj_case(case[1]), 'outcome': 'xj', 'nogate': True}
     k, shape, counts, bad, ok = case
     spec, argv = build_spec(case)
-    res = runrt.run_world(spec, argv)
+    hook = None
+    cf = [o for o in ok.split('+') if o.startswith('cf')]
+    if cf:
+        target = 'vtw.tests.' + list('BCD')[_layer_of(shape, counts, bad[1])]
+
+        def hook(layer, args):
+            if layer != target:
+                return None
+            if cf[0] == 'cfempty':
+                return ('mangle', lambda out, err: (out[:len(out) // 2], b''))
+            return ('mangle', lambda out, err: (out, err[:max(1, len(err) - 4)]))
+    res = runrt.run_world(spec, argv, child_hook=hook)
     sv = monitors.SpecView(spec)
     opts = ok.split('+')
     sequential = not any(o.startswith('j') for o in opts)
